@@ -107,7 +107,13 @@ def simple_get_restriction_tag(document, cls):
     restriction = etree.SubElement(simple_type, XSD('restriction'))
     restriction.set('base', extends.get_type_name_ns(document.interface))
 
-    for v in cls.Attributes.values:
+    values = cls.Attributes.values
+    if isinstance(values, (set, frozenset)):
+        # (which is what the attribute is documented as.) sets of strings
+        # iterate in an order that changes from one process to the next.
+        values = sorted(values, key=lambda v: XmlDocument().to_unicode(cls, v))
+
+    for v in values:
         enumeration = etree.SubElement(restriction, XSD('enumeration'))
         enumeration.set('value', XmlDocument().to_unicode(cls, v))
 
